@@ -5,7 +5,8 @@ prioritized_sampling/update_priority/reset_max_priority, LAP.add_sample/
 sample_batch/update_priority/reset_max_priority, PrioritizedReplayBuffer.
 prioritized_sampling_stratified/sample_batch/compute_importance_ratio,
 SubtrajectoryReplayBufferPER._sample_idx (masked sampling), lap_priority,
-per_priority.
+per_priority, MultiTaskReplayBuffer.update_priority/reset_max_priority (which task's
+buffer an update / a reset reaches; modular, contracts/multitask.py).
 
 Sampling law (DESIGN 5, C08): with w_i = priority_i * mask_i, c = cumsum(w),
 S = c[len-1] > 0, every uniform variate u in (0,1) is mapped to the index i with
@@ -379,3 +380,12 @@ ASSUMPTIONS = [
 ]
 NOT_COVERED = ["empirical frequencies under a concrete generator (replaced by the interval law)"]
 REPLAY = {"": "c08_priority"}
+
+# ---- multi-task wrapper (modular: per-task buffers are contract stubs, see contracts/multitask.py)
+from . import multitask as _MTM  # noqa: E402
+from .multitask import TASKS_C08 as _MT  # noqa: E402
+
+TASKS = TASKS + _MT
+ASSUMPTIONS = ASSUMPTIONS + _MTM.ASSUMPTIONS
+NOT_COVERED = NOT_COVERED + _MTM.NOT_COVERED
+REPLAY = dict(REPLAY, **_MTM.REPLAY_C08)
